@@ -646,15 +646,18 @@ def marshal (S : Schema) (d : Nat) (tag : Nat) (v : Val) : Res Bytes := do
     covers every value the encoder (fuel 100000) can produce (`depth_bound` in Lemmas/PlanRoundtrip18). -/
 def decFuel (n : Nat) : Nat := n + 3000000
 
+/-- the typed decoder on `bs` into a fresh value of dyn type `d`, with an explicit fuel. -/
+def unmarshalWith (S : Schema) (fuel : Nat) (d : Nat) (tag : Nat) (bs : Bytes) : Res Val := do
+  let c ← Cur.start bs
+  let dy := S.dyn d
+  let tag := if tag = 0 then dy.defTag else tag
+  let k := match dy.kind with | .ptr k' => k' | k' => k'
+  let (x, _, _) ← decK S fuel k tag c none
+  pure (match dy.kind with | .ptr _ => Val.ptr (some x) | _ => x)
+
 /-- `ttlv.UnmarshalTTLV(bs, ptr)` / `dec.TagAny(tag, ptr)` with `ptr` a fresh pointer to the dyn type `d`.
     A type id that denotes no type of the schema is an error (there is no such call in Go). -/
 def unmarshal (S : Schema) (d : Nat) (tag : Nat) (bs : Bytes) : Res Val :=
-  if S.dyns.length ≤ d then .err .other else do
-    let c ← Cur.start bs
-    let dy := S.dyn d
-    let tag := if tag = 0 then dy.defTag else tag
-    let k := match dy.kind with | .ptr k' => k' | k' => k'
-    let (x, _, _) ← decK S (decFuel bs.length) k tag c none
-    pure (match dy.kind with | .ptr _ => Val.ptr (some x) | _ => x)
+  if S.dyns.length ≤ d then .err .other else unmarshalWith S (decFuel bs.length) d tag bs
 
 end Kmip
